@@ -7,8 +7,9 @@
 (*  guess     [crystal, Mn, den, exact, natom_prim, prim_is_primitive, conv_is_primitive, nrot]       *)
 (*  estsys    [which, num, n, l2, maxn, maxit, res]   stub dataset / point-group number               *)
 (*  estxtal   [crystal, Pm, runs: [maxn, maxit, res]] spglib dataset of a catalogue crystal; Pm = transformation_matrix (unimodular) *)
-(*  reduce    [method, Gin, Tm, exact]        get_reduced_bases                                        *)
+(*  reduce    [method, Gin, Tm, exact, det]   get_reduced_bases; det = determinant(Tm) of cells.py                                        *)
 (*  tol       [cls, mode, atol, verdict]      isclose on a cell with one atom displaced by a distance of class cls *)
+(*  yaml      [field, shown, err, ulp, same]  str(cell) -> yaml -> parse_cell_dict, worst number of a field *)
 (*  params    [Gin, l2, c23, c13, c12, exact, lower, G2]  get_cell_parameters / get_angles / get_cell_matrix_from_lattice *)
 EXTENDS CellCatalogue, Json
 
@@ -60,12 +61,14 @@ Failed ==
                 r \in {ev.runs[k] : k \in DOMAIN ev.runs}}
     [] ev.kind = "reduce" ->
          IF ~ ev.exact THEN {"not-integer-transformation"}
+         ELSE IF ev.det # Det(ev.Tm) THEN {"determinant"}
          ELSE IF ~ SameLattice(ev.Tm) THEN {"same-lattice"}
          ELSE LET Gr == GramOf(ev.Tm, ev.Gin)
               IN IF ev.method = "niggli" THEN {"niggli:" \o x : x \in NiggliFailed(Gr)}
                  ELSE {"minima:" \o x : x \in MinimaFailed(Gr)}
     [] ev.kind = "tol" ->
          IF ev.verdict = TolReq(ev.cls) THEN {} ELSE {"distance-tolerance:" \o ev.mode}
+    [] ev.kind = "yaml" -> YamlFailed(ev.field, ev.shown, ev.err, ev.ulp, ev.same)
     [] ev.kind = "params" ->
          (IF ev.exact /\ ParamsReq(ev.Gin, ev.l2, ev.c23, ev.c13, ev.c12) THEN {} ELSE {"lengths-angles"})
          \cup (IF ev.lower THEN {} ELSE {"lower-triangular"})
@@ -76,6 +79,7 @@ ImplGuess    == AtEnd /\ ev.kind = "guess" => Failed = {}
 ImplEstimate == AtEnd /\ ev.kind \in {"estsys", "estxtal"} => Failed = {}
 ImplReduce   == AtEnd /\ ev.kind = "reduce" => Failed = {}
 ImplParams   == AtEnd /\ ev.kind = "params" => Failed = {}
+ImplYaml == AtEnd /\ ev.kind = "yaml" => Failed = {}
 ImplTolerance == AtEnd /\ ev.kind = "tol" => Failed = {}
 Report == AtEnd => PrintT(ToString(<<"V", ev.id, Failed>>))
 
